@@ -80,8 +80,11 @@ def canon_rule(r):
         for item in r.variables.seq:
             if item.type == 'var':
                 vt = lt(item.value[1].cssText)
-                if vt:      # a variable without a value cannot be written and read back (C10's subject)
-                    vs.append(('var', item.value[0], vt))
+                if not vt:
+                    # a variable without a value cannot be written and read back (the block `a:;` is C10's /
+                    # C03's subject): such a rule is left out of the comparison on both sides
+                    return None
+                vs.append(('var', item.value[0], vt))
             elif isinstance(item.value, css.CSSComment):
                 vs.append(('comment', item.value._cssText or ''))
         return ('variables', vs) if any(v[0] == 'var' for v in vs) else None
